@@ -142,11 +142,16 @@ class C10(Check):
                'rxsci/operators/distinct_until_changed.py', 'rxsci/data/lag.py', 'rxsci/data/pad.py', 'rxsci/operators/start_with.py',
                'rxsci/data/batch.py', 'rxsci/data/sort.py']
     REQUIRED_TAGS = ['first', 'last', 'take', 'distinct', 'duc', 'lag', 'pad_start', 'pad_end', 'start_with', 'batch', 'sort',
-                     'plain', 'mux', 'group', 'roll', 'split', 'scale', 'numpy-items', 'negative-values', 'empty', 'has-None', 'len-multiple-of-n'] + PRELUDE_TAGS
+                     'plain', 'mux', 'group', 'roll', 'split', 'scale', 'numpy-items', 'negative-values', 'empty', 'has-None', 'len-multiple-of-n', 'numpy-typed-parameters'] + PRELUDE_TAGS
     REQUIRED_OBSERVED = ['sequences_compared']
 
     def generate(self, rng, tier, shard, nshards):
-        return with_prelude(self._generate(rng, tier, shard, nshards), rng, size=lambda c: len(c['seq']))
+        def npp(cases):
+            for n, c in enumerate(cases):
+                if n % 7 == 3:
+                    c = dict(c, npparam=('int64', 'int32')[(n // 7) % 2])
+                yield c
+        return with_prelude(npp(self._generate(rng, tier, shard, nshards)), rng, size=lambda c: len(c['seq']))
 
     def _generate(self, rng, tier, shard, nshards):
         return interleave(self._box(tier, shard, nshards), self._random(rng, tier))
@@ -200,6 +205,8 @@ class C10(Check):
         node, mode, seq = case['op'], case['mode'], case['seq']
         prelude = case.get('prelude')
         prelude_tags(case, out)
+        if case.get('npparam') and node[0] in progs.NP_PARAM_POS:
+            out.tags.append('numpy-typed-parameters')
         name = node[0]
         out.tags += [name, mode]
         if not seq:
@@ -226,7 +233,7 @@ class C10(Check):
             if mode == 'plain' and name in ('first', 'last') and not seq:
                 out.discarded = 'first/last on an empty plain observable raise by design'
                 return out
-            op = build_op(node)
+            op = self._op(node, case)
             if mode == 'plain':
                 s = progs.run_obs(lambda src: src.pipe(op), seq, prelude=prelude)
             else:
@@ -244,7 +251,7 @@ class C10(Check):
             # output must be the list definition applied to that lifetime's items alone
             from ..muxmon import lifetimes
             head, tail = [], []
-            op = build_op(node)
+            op = self._op(node, case)
             inner = [tap(head), op, tap(tail)]
             ctx = rs.data.roll(2, 2, inner) if mode == 'roll' else rs.data.split(KEYF['par'], inner)
             s = progs.run_obs(lambda src: src.pipe(rs.state.with_memory_store([ctx])), seq, prelude=prelude, logs=(head, tail))
@@ -270,7 +277,7 @@ class C10(Check):
         if name in ('pad_start', 'pad_end') and node[2] is not None:
             node = [name, node[1], ('pad', node[2])]
         head, tail = [], []
-        op = build_op(node)
+        op = self._op(node, case)
         s = progs.run_obs(lambda src: src.pipe(rs.state.with_memory_store(
             [rs.ops.group_by(lambda i: i[0], [tap(head), op, tap(tail)])])), items, prelude=prelude, logs=(head, tail))
         if s.err is not None or not s.done:
@@ -294,6 +301,20 @@ class C10(Check):
                 out.fail('differs-from-list-definition', op=node, mode=mode, group=g, seq=gi, want=want, got=got[g], items=items)
                 return out
         return out
+
+    _opcache = {}
+
+    def _op(self, node, case):
+        """ONE operator object per (operator, parameters) serves every case and every mode of the run - plain sources,
+        multiplexed ones, windows, groups - as a module-level `head = rs.ops.take(2)` would in an application.
+        With `npparam` the size parameters are numpy integers."""
+        import json
+        if case.get('npparam'):
+            node = progs.np_params(node, case['npparam'])
+        key = json.dumps([repr(x) for x in node]) + str(case.get('npparam'))
+        if key not in self._opcache:
+            self._opcache[key] = build_op(node)
+        return self._opcache[key]
 
     box_done = 0
 
